@@ -19,6 +19,7 @@ RULE = (
     "(reference expression = literal(value)) must be satisfiable, with floats compared by bit pattern (NaN by isNaN) "
     "and strings by code points; batch_eval tuples must be jointly satisfiable.  Non-trivial: the judged value came "
     "from a solver model (not a constant expression); distinct by (constraints, expression, operation) hash."
+    " Session 4: queries under an extra constraint tying the expression to a separately constrained variable; copies taken right after an add; solvers combined after each has solved."
 )
 ASSUMPTIONS = ["a NaN returned for an FP expression is judged by isNaN only (SMT-LIB has one NaN)"]
 
